@@ -3,6 +3,7 @@ package world
 import (
 	"encoding/json"
 	"fmt"
+	"os"
 	"reflect"
 	"runtime"
 	"runtime/debug"
@@ -52,9 +53,11 @@ type Stats struct {
 	ByOp       map[string]int `json:"by_op"`
 	RefusedOps map[string]int `json:"refused_ops"`
 	Nontrivial int            `json:"nontrivial"`
-	TagN       map[string]int `json:"tag_n"`    // executions in which the circumstance named by the tag occurred
-	TagDiv     map[string]int `json:"tag_div"`  // ... of which diverged
-	TagPass    map[string]int `json:"tag_pass"` // ... of which were compared to the end and agreed
+	L2Agree    int            `json:"l2_agree"`  // live tensors whose Strides() equal the Level-2 transcription's
+	L2Differ   int            `json:"l2_differ"` // ... and differ (not a verdict: strides are not observable behaviour)
+	TagN       map[string]int `json:"tag_n"`     // executions in which the circumstance named by the tag occurred
+	TagDiv     map[string]int `json:"tag_div"`   // ... of which diverged
+	TagPass    map[string]int `json:"tag_pass"`  // ... of which were compared to the end and agreed
 }
 
 func NewStats() *Stats {
@@ -145,6 +148,26 @@ const (
 // Run replays the case; returns the first divergence (nil if none).
 func Run(c *Case, cfg Config, stats *Stats) (*Divergence, Outcome) {
 	w, d, oc := run(c, cfg, stats)
+	if oc == Passed && c.L2 != nil {
+		for h, l := range c.L2 {
+			if l.Dev || h >= len(w.live) || w.live[h] == nil {
+				continue
+			}
+			got := w.live[h].Strides()
+			same := len(got) == len(l.St)
+			for i := 0; same && i < len(got); i++ {
+				same = got[i] == l.St[i]
+			}
+			if same {
+				stats.L2Agree++
+			} else {
+				stats.L2Differ++
+				if os.Getenv("VERIF_L2_VERBOSE") != "" {
+					fmt.Fprintf(os.Stderr, "L2 strides differ: %s h%d real %v level-2 %v\n", c.PathString(), h+1, got, l.St)
+				}
+			}
+		}
+	}
 	for _, t := range w.tags {
 		stats.TagN[t]++
 		switch oc {
